@@ -79,9 +79,17 @@ def circuit_boolean_optimizer(
 
         qc_sec = exprs_to_quantum(exprs=n_exps, symbols=symbols, compiler=compiler)
 
+        # The compiler expresses `a = b` by renaming a qubit in its qubit_map instead of
+        # emitting gates: a re-synthesis whose input qubits are no longer where they were
+        # cannot be spliced in place of the section
+        renamed = any(
+            qc_sec.qubit_map.get(s) != i for i, s in enumerate(symbols)
+        )
+
         if (
             len(qc_sec.gates) > len(section.gates)
             or (qc_sec.used_qubits - section_qubits) != set()
+            or renamed
         ):
             continue
 
